@@ -40,9 +40,9 @@ def explore(sem, root, env=None, max_depth=12):
         if key in seen or depth > max_depth:
             return
         seen.add(key)
-        be = w.be(body)
-        removed = sem.feasible_removed(be, env)
-        blocks = be.cfg.reach([0], removed=removed)
+        removed = sem.feasible_removed(w.be(body), env)
+        be = w.be_spec(body, removed)
+        blocks = set(be.cfg.live)
         vis = Visit(body, be, env, blocks, via, args, upvars, w, parent, frozenset(removed))
         out.append(vis)
         for bb in sorted(blocks):
@@ -152,3 +152,28 @@ def site_guarded(sem, vis, bb, fact_pred):
             break
         level, site = level.parent
     return False, "unguarded path: " + " <- ".join(chain)
+
+
+def written_value_in(sem, visits, vis, kind, cell, val):
+    """like Sem.written_value but, for update(closure), evaluated inside the closure's own
+    specialised visit (infeasible arms of the closure pruned by the abstract environment)"""
+    w = sem.w
+    if kind != "update":
+        return sem.written_value(kind, cell, val)
+    clo = w.ident(val)
+    if clo.op != "closure":
+        return None
+    cvs = [cv for cv in visits if cv.body.path == clo.info and cv.parent is not None and cv.parent[0] is vis]
+    if not cvs:
+        return sem.written_value(kind, cell, val)
+    from .expr import mk_phi
+    vals = []
+    for cv in cvs:
+        for (bb, idx, k, x) in sem.ret_sites(cv.be):
+            if k == "ok" and bb in cv.blocks:
+                v = x.args[0]
+                v = w.subst_params(v, cv.body, [None, sem.synthetic_load(cell)], upvars=cv.upvars)
+                vals.append(v)
+    if not vals:
+        return None
+    return w.ident(mk_phi(vals))
